@@ -435,3 +435,47 @@ def entailed_atoms(cond_terms):
             true_now = {a for a in atoms if asg[a]}
             always = true_now if always is None else (always & true_now)
     return list(always) if always is not None else list(atoms)  # unreachable point: everything holds vacuously
+
+
+def result_leaves(expr, _depth=0):
+    """The expressions an expression can evaluate to: its tail through blocks / if / match (diverging alternatives dropped), plus
+    the operands of `return`s in it (closures are not entered)."""
+    out = []
+
+    def tail(e):
+        while isinstance(e, dict) and e.get("k") in ("DropTemps", "Use") and "e" in e:
+            e = e["e"]
+        if not isinstance(e, dict):
+            return
+        k = e.get("k")
+        if k == "Block":
+            if e["block"].get("expr") is not None:
+                tail(e["block"]["expr"])
+        elif k == "If":
+            tail(e["then"])
+            if e.get("else") is not None:
+                tail(e["else"])
+        elif k == "Match" and "TryDesugar" not in (e.get("source") or ""):
+            for a in e["arms"]:
+                tail(a["body"])
+        elif k == "Ret":
+            pass
+        else:
+            out.append(e)
+
+    tail(expr)
+
+    def rets(e, in_closure=False):
+        if isinstance(e, dict):
+            if e.get("k") == "Closure":
+                return
+            if e.get("k") == "Ret" and e.get("e") is not None:
+                out.append(e["e"])
+            for v in e.values():
+                rets(v)
+        elif isinstance(e, list):
+            for v in e:
+                rets(v)
+
+    rets(expr)
+    return out
